@@ -29,7 +29,49 @@ def games_selfloops(rng, tier):
         yield g
 
 
+def games_shared(rng, tier):
+    """descriptions in which ONE list object serves as the transition list of two states (legal: nothing forbids it, and a description
+    built by a program easily has it). A replay file cannot carry object identity, so the sharing is recorded as `shared: [[i, j]]`
+    and re-established by the checker. Shape 0: a Player 2 state and an unreachable Player 1 'mirror' own the same two moves, the
+    mirror's reachability-optimal set drops the move that is Player 2's cheapest. Then random stopping games to which unreachable
+    mirror states are appended: a Player 1 and a Player 2 mirror of a player state, a probabilistic mirror of a chance state."""
+    from lib import P1, P2, PR, mk_game
+    L = [("l", 3), ("r", 4)]
+    g = mk_game([P1, P2, PR, PR, PR, PR, PR, P1],
+                [[("in", 1), ("out", 2)], L, [(0.5, 6), (0.5, 5)], [(1, 6)], [(0.5, 6), (0.5, 5)], [(1, 5)], [(1, 6)], L],
+                [0, 0, 5, 10, 1, 0, 0, 0], [6])
+    yield dict(g, shared=[[1, 7]])
+    g = mk_game([P1, P2, PR, PR, PR, PR, PR, P2], g['transition_list'], [0, 0, 5, 10, 1, 0, 0, 0], [6])
+    yield dict(g, shared=[[1, 7]])
+    for base in lib.gen_games(rng, N_GAMES[tier] // 6, slow=False):
+        g = copy.deepcopy(base)
+        n0 = len(g['players'])
+        shared = []
+        pl = [i for i in range(n0) if g['players'][i] in (P1, P2) and i not in g['final_states']]
+        ch = [i for i in range(n0) if g['players'][i] == PR and i not in g['final_states'] and len(g['transition_list'][i]) >= 2]
+        picks = ([(rng.choice(pl), P1), (rng.choice(pl), P2)] if pl else []) + ([(rng.choice(ch), PR)] if ch else [])
+        for i, owner in picks:
+            g['players'].append(owner)
+            g['rewards'].append(0)
+            g['transition_list'].append(list(g['transition_list'][i]))
+            shared.append([i, len(g['players']) - 1])
+        if shared:
+            yield dict(g, shared=shared)
+
+
+def check_solve_shared(inp, mods, rng=None):
+    g = copy.deepcopy({k: v for k, v in inp.items() if k != 'shared'})
+    for i, j in inp['shared']:
+        g['transition_list'][j] = g['transition_list'][i]          # the SAME list object
+    note = f'[states {inp["shared"]} share one list object] '
+    F = SC.check_solve(g, mods)
+    if not F:
+        F = SC.check_solve_history(g, mods)
+    return [(p_, c_, note + m_) for p_, c_, m_ in F]
+
+
 CHECKERS = {
+    'solve-shared': check_solve_shared,
     'batch': XC.check_batch,
     'report': XC.check_report,
     'accuracy': XC.check_accuracy,
@@ -51,10 +93,15 @@ SUITES = {}
 for p in ('C01', 'C02', 'C03', 'C04', 'C05', 'C06', 'C14'):
     SUITES[p] = [dict(name='solve-small-games', gen=games, checker='solve'),
                  dict(name='solve-after-solve-on-one-object', gen=games_few, checker='solve-history')]
+for p in ('C02', 'C03', 'C05', 'C06', 'C10'):
+    SUITES.setdefault(p, [])
+for p in ('C02', 'C03', 'C05', 'C06'):
+    SUITES[p] = SUITES[p] + [dict(name='states-sharing-one-list-object', gen=games_shared, checker='solve-shared')]
 for p in ('C01', 'C04'):
     SUITES[p] = SUITES[p] + [dict(name='reach-phase-nonabsorbing-finals', gen=games_nonabs, checker='reach'),
                              dict(name='reach-phase-players-may-wait', gen=games_selfloops, checker='reach')]
-SUITES['C10'] = [dict(name='solve-small-games', gen=games, checker='solve'), dict(name='repeat-sequences', gen=games_few, checker='repeat')]
+SUITES['C10'] = [dict(name='solve-small-games', gen=games, checker='solve'), dict(name='repeat-sequences', gen=games_few, checker='repeat'),
+                 dict(name='states-sharing-one-list-object', gen=games_shared, checker='solve-shared')]
 SUITES['C13'] = [dict(name='permuted-presentations', gen=games, checker='permute')]
 
 SUITES['C07'] = [dict(name='graphs', gen=GC.gen_graphs, checker='graph')]
